@@ -210,4 +210,192 @@ theorem capi_step_faithful {V : Type} {g0 : Nat → V} (pol : Policy) (prog : Pr
   | notPermitted w => rw [h] at hp; exact hp.elim
   | fault f => rw [h] at hp; exact hp.elim
 
+/-! ## Call-backs: `write` / `end` -/
+
+def HΦ (s : HState R) : HState R := { s with env := Φ L t s.env }
+
+theorem HΦ_env (s : HState R) : (HΦ L t s).env = Φ L t s.env := rfl
+theorem HΦ_u (s : HState R) : (HΦ L t s).u = s.u := rfl
+
+theorem dropAll_Φ (e : Env R) (l : List Nat) : dropAll (Φ L t e) l = mapRes (Φ L t) (dropAll e l) := by
+  induction l generalizing e with
+  | nil => rfl
+  | cons sid rest ih =>
+    simp only [dropAll, releaseHandler_Φ]
+    cases releaseHandler e sid with
+    | ok e1 => exact ih e1
+    | notPermitted w => rfl
+    | fault f => rfl
+
+theorem opAllowed_Φ (pol : Policy) (e : Env R) (op : ROp) : opAllowed pol (Φ L t e) op = opAllowed pol e op := by
+  cases op <;> cases pol <;> rfl
+
+theorem callR_Φ (pol : Policy) (s : HState R) (op : ROp) :
+    callR pol (HΦ L t s) op = mapRes (fun x => (HΦ L t x.1, x.2)) (callR pol s op) := by
+  unfold callR
+  dsimp only [HΦ]
+  simp only [opAllowed_Φ, dropAll_Φ]
+  cases opAllowed pol s.env op
+  · rfl
+  · simp only [if_true]
+    cases dropAll s.env (R.unitOp s.u op).2.2 with
+    | ok env =>
+      simp only [mapRes]
+      by_cases hb : bumps op (R.unitOp s.u op).2.1 = true
+      · simp only [if_pos hb]; rfl
+      · simp only [if_neg hb]
+    | notPermitted w => rfl
+    | fault f => rfl
+
+theorem alloc_Φ (e : Env R) (p : Payload R) : alloc (Φ L t e) p = (Φ L t (alloc e p).1, (alloc e p).2) := rfl
+
+theorem callR_Φ' (pol : Policy) (u : R.U) (e : Env R) (op : ROp) :
+    callR pol ⟨u, Φ L t e⟩ op = mapRes (fun x => (HΦ L t x.1, x.2)) (callR pol ⟨u, e⟩ op) :=
+  callR_Φ L t pol ⟨u, e⟩ op
+
+macro "fin_Φ" : tactic =>
+  `(tactic| first | rfl | (simp only [save_Φ]; rfl) | (dsimp only [HΦ]; simp only [save_Φ]; rfl) | (simp only [mapRes, ok_bind, HΦ_env, save_Φ]; rfl))
+
+theorem cUnitOp_Φ (pol : Policy) (s : HState R) (op : COp) (hop : COp.isTake op = false) :
+    cUnitOp pol t (HΦ L t s) op = mapRes (HΦ L t) (cUnitOp pol canon s op) := by
+  cases op with
+  | takeLastError dst => simp [COp.isTake] at hop
+  | strGet dst f =>
+    simp only [cUnitOp, callR_Φ]
+    rcases callR pol s (.get f []) with ⟨s1, r⟩ | w | f' <;> try rfl
+    cases r <;> rfl
+  | optStrGet dst f args =>
+    simp only [cUnitOp, callR_Φ]
+    cases decodeArgs args with
+    | error err => fin_Φ
+    | ok args' =>
+      dsimp only
+      rcases callR pol s (.get f args') with ⟨s1, r⟩ | w | f' <;> try rfl
+      cases r <;> try rfl
+      rename_i o; cases o <;> rfl
+  | intGet f args =>
+    simp only [cUnitOp, callR_Φ]
+    cases decodeArgs args with
+    | error err => fin_Φ
+    | ok args' =>
+      dsimp only
+      rcases callR pol s (.get f args') with ⟨s1, r⟩ | w | f' <;> try rfl
+      cases r <;> rfl
+  | fallible f args =>
+    simp only [cUnitOp, callR_Φ]
+    cases decodeArgs args with
+    | error err => fin_Φ
+    | ok args' =>
+      dsimp only
+      rcases callR pol s (.call f args' false) with ⟨s1, r⟩ | w | f' <;> try rfl
+      cases r <;> fin_Φ
+  | infallible f args isHtml =>
+    simp only [cUnitOp, callR_Φ]
+    cases decodeArgs args with
+    | error err => fin_Φ
+    | ok args' =>
+      dsimp only
+      rcases callR pol s (.call f args' isHtml) with ⟨s1, r⟩ | w | f' <;> rfl
+  | void f =>
+    simp only [cUnitOp, callR_Φ]
+    rcases callR pol s (.call f [] false) with ⟨s1, r⟩ | w | f' <;> rfl
+  | boolGet f =>
+    simp only [cUnitOp, callR_Φ]
+    rcases callR pol s (.get f []) with ⟨s1, r⟩ | w | f' <;> try rfl
+    cases r <;> rfl
+  | rawGet f =>
+    simp only [cUnitOp, callR_Φ]
+    rcases callR pol s (.get f []) with ⟨s1, r⟩ | w | f' <;> rfl
+  | bytesFallible f b isHtml =>
+    simp only [cUnitOp, callR_Φ]
+    rcases callR pol s (.callBytes f b isHtml) with ⟨s1, r⟩ | w | f' <;> try rfl
+    cases r <;> fin_Φ
+  | addEndTagHandler hid =>
+    simp only [cUnitOp, callR_Φ]
+    rcases callR pol s (.addEndTagHandler hid) with ⟨s1, r⟩ | w | f' <;> try rfl
+    cases r <;> fin_Φ
+  | clearEndTagHandlers =>
+    simp only [cUnitOp, callR_Φ]
+    rcases callR pol s .clearEndTagHandlers with ⟨s1, r⟩ | w | f' <;> rfl
+  | streaming f h =>
+    cases h with
+    | null => simp only [cUnitOp]; fin_Φ
+    | mk rn hw hd script =>
+      simp only [cUnitOp]
+      cases rn
+      · simp only [Bool.not_false, if_true]; fin_Φ
+      · simp only [Bool.not_true, Bool.false_eq_true, if_false]
+        dsimp only [HΦ]
+        simp only [alloc_Φ]
+        cases hw
+        · simp only [Bool.not_false, if_true, save_Φ, releaseHandler_Φ]
+          cases releaseHandler (saveLastError (alloc s.env (.shandler script hd)).1 canon .uninitialized)
+            (alloc s.env (.shandler script hd)).2 <;> rfl
+        · simp only [Bool.not_true, Bool.false_eq_true, if_false, callR_Φ']
+          rcases callR pol ⟨s.u, (alloc s.env (.shandler script hd)).1⟩
+            (.streaming f (alloc s.env (.shandler script hd)).2) with ⟨s1, r⟩ | w | f' <;> rfl
+  | iterGet dst =>
+    simp only [cUnitOp, callR_Φ]
+    rcases callR pol s .attrCount with ⟨s1, r⟩ | w | f' <;> try rfl
+    cases r <;> rfl
+  | iterNext it =>
+    simp only [cUnitOp]
+    dsimp only [HΦ]
+    simp only [validArg_Φ, deref_Φ]
+    cases validArg s.env it .attrIter <;> simp only [require] <;> try rfl
+    rcases deref s.env it .attrIter with ⟨h, ⟨st, p⟩⟩ | w | f' <;> try rfl
+    cases p <;> try rfl
+    rename_i pos len scope epoch
+    simp only [if_true, ok_bind]
+    by_cases h1 : (scope == s.env.scope) = true
+    · have h1' : (scope == (Φ L t s.env).scope) = true := h1
+      simp only [if_pos h1, if_pos h1', ok_bind]
+      by_cases h2 : epoch ≠ s.env.epoch
+      · have h2' : epoch ≠ (Φ L t s.env).epoch := h2
+        simp only [if_pos h2, if_pos h2']; rfl
+      · have h2' : ¬ epoch ≠ (Φ L t s.env).epoch := h2
+        simp only [if_neg h2, if_neg h2']
+        by_cases h3 : pos < len
+        · simp only [if_pos h3]; rfl
+        · simp only [if_neg h3]; rfl
+    · have h1' : ¬ (scope == (Φ L t s.env).scope) = true := h1
+      simp only [if_neg h1, if_neg h1']; rfl
+  | iterFree it =>
+    simp only [cUnitOp]
+    dsimp only [HΦ]
+    simp only [validArg_Φ, release_Φ]
+    cases validArg s.env it .attrIter <;> simp only [require] <;> try rfl
+    rcases release s.env it .attrIter with ⟨e1, h, o⟩ | w | f' <;> rfl
+  | attrStrGet dst it f =>
+    simp only [cUnitOp]
+    dsimp only [HΦ]
+    simp only [validArg_Φ, deref_Φ]
+    cases validArg s.env it .attrIter <;> simp only [require] <;> try rfl
+    rcases deref s.env it .attrIter with ⟨h, ⟨st, p⟩⟩ | w | f' <;> try rfl
+    cases p <;> try rfl
+    rename_i pos len scope epoch
+    simp only [if_true, ok_bind]
+    by_cases h1 : (scope == s.env.scope) = true
+    · have h1' : (scope == (Φ L t s.env).scope) = true := h1
+      simp only [if_pos h1, if_pos h1', ok_bind]
+      by_cases h2 : (0 < pos && pos ≤ len) = true
+      · simp only [if_pos h2, ok_bind]
+        by_cases h3 : epoch = s.env.epoch
+        · have e1 : (epoch ≠ s.env.epoch) = False := eq_false (not_not_intro h3)
+          have e2 : (epoch ≠ (Φ L t s.env).epoch) = False := eq_false (not_not_intro h3)
+          simp only [e1, e2, if_false, callR_Φ']
+          rcases callR pol ⟨s.u, s.env⟩ (.attrGet (pos - 1) f) with ⟨s1, r⟩ | w | f' <;> try rfl
+          cases r <;> rfl
+        · have e1 : (epoch ≠ s.env.epoch) = True := eq_true h3
+          have e2 : (epoch ≠ (Φ L t s.env).epoch) = True := eq_true h3
+          simp only [e1, e2, if_true]; rfl
+      · simp only [if_neg h2]; rfl
+    · have h1' : ¬ (scope == (Φ L t s.env).scope) = true := h1
+      simp only [if_neg h1, if_neg h1']; rfl
+  | strFree v =>
+    simp only [cUnitOp]
+    dsimp only [HΦ]
+    rw [strFree_Φ]
+    cases strFree pol s.env v <;> rfl
+
 end LolHtml.Thm.C18
